@@ -512,6 +512,369 @@ theorem insertionSort_sorted (hT : TotalPreorder less) (d : Array α) (a b : Nat
     S less (insertionSort less d a b) a b :=
   insertionLoop_sorted less hT a b (b - (a + 1)) (a + 1) d (by omega) hb (by omega) (fun i j hi hij hj => by omega)
 
+/-! ### symMerge -/
+
+/-- `d'` differs from `d` only inside `[a, b)`, and what is inside came from inside -/
+structure Frame (d d' : Array α) (a b : Nat) : Prop where
+  size : d'.size = d.size
+  out : ∀ k, (k < a ∨ b ≤ k) → get d' k = get d k
+  mem : ∀ k, a ≤ k → k < b → ∃ k', a ≤ k' ∧ k' < b ∧ get d' k = get d k'
+
+theorem Frame.refl (d : Array α) (a b : Nat) : Frame d d a b :=
+  ⟨rfl, fun _ _ => rfl, fun k h1 h2 => ⟨k, h1, h2, rfl⟩⟩
+
+theorem Frame.mono {d d' : Array α} {a b a' b' : Nat} (h : Frame d d' a b) (ha : a' ≤ a) (hb : b ≤ b') : Frame d d' a' b' := by
+  refine ⟨h.size, fun k hk => h.out k (by omega), fun k h1 h2 => ?_⟩
+  by_cases hin : a ≤ k ∧ k < b
+  · obtain ⟨k', e1, e2, e3⟩ := h.mem k hin.1 hin.2
+    exact ⟨k', by omega, by omega, e3⟩
+  · exact ⟨k, h1, h2, h.out k (by omega)⟩
+
+theorem Frame.trans {d d' d'' : Array α} {a b : Nat} (h : Frame d d' a b) (h' : Frame d' d'' a b) : Frame d d'' a b := by
+  refine ⟨h'.size.trans h.size, fun k hk => (h'.out k hk).trans (h.out k hk), fun k h1 h2 => ?_⟩
+  obtain ⟨k1, e1, e2, e3⟩ := h'.mem k h1 h2
+  obtain ⟨k2, f1, f2, f3⟩ := h.mem k1 e1 e2
+  exact ⟨k2, f1, f2, e3.trans f3⟩
+
+/-- first special case of `symMerge` (`m - a == 1`): `data[a]` is inserted into the ordered `data[a+1:b]` before the
+    first element that is not `less` than it -/
+theorem insertFirst_sorted (hT : TotalPreorder less) (d : Array α) (a b i : Nat) (hai : a + 1 ≤ i) (hib : i ≤ b)
+    (hb : b ≤ d.size) (h2 : S less d (a + 1) b)
+    (hl : i = a + 1 ∨ less (get d (i - 1)) (get d a) = true) (hr : i = b ∨ less (get d i) (get d a) = false) :
+    Frame d (bubbleUp (i - 1) (i - 1 - a) a d) a b ∧ S less (bubbleUp (i - 1) (i - 1 - a) a d) a b := by
+  obtain ⟨sz, sp⟩ := bubbleUp_spec (i - 1) (i - 1 - a) a d (by omega) (by omega) (by omega)
+  have F1 : ∀ h, a + 1 ≤ h → h < i → less (get d h) (get d a) = true := by
+    intro h h1 h2'
+    rcases hl with hl | hl
+    · omega
+    · by_cases e : h = i - 1
+      · subst e; exact hl
+      · exact hT.trans _ _ _ (h2 h (i - 1) h1 (by omega) (by omega)) hl
+  have F2 : ∀ y, i ≤ y → y < b → less (get d a) (get d y) = true := by
+    intro y h1 h2'
+    rcases hr with hr | hr
+    · omega
+    · have := hT.of_false hr
+      by_cases e : y = i
+      · subst e; exact this
+      · exact hT.trans _ _ _ this (h2 i y (by omega) (by omega) h2')
+  have U1 : ∀ x, a ≤ x → x < i - 1 → get (bubbleUp (i - 1) (i - 1 - a) a d) x = get d (x + 1) :=
+    fun x h1 h2 => by rw [sp, if_pos ⟨h1, h2⟩]
+  have U2 : get (bubbleUp (i - 1) (i - 1 - a) a d) (i - 1) = get d a := by rw [sp, if_neg (by omega), if_pos rfl]
+  have U3 : ∀ x, (x < a ∨ i - 1 < x) → get (bubbleUp (i - 1) (i - 1 - a) a d) x = get d x :=
+    fun x h => by rw [sp, if_neg (by omega), if_neg (by omega)]
+  constructor
+  · refine ⟨sz, fun k hk => U3 k (by omega), fun k h1 h2' => ?_⟩
+    by_cases c1 : k < i - 1
+    · exact ⟨k + 1, by omega, by omega, U1 k h1 c1⟩
+    · by_cases c2 : k = i - 1
+      · subst c2; exact ⟨a, by omega, by omega, U2⟩
+      · exact ⟨k, h1, h2', U3 k (by omega)⟩
+  · intro x y hx hxy hy
+    by_cases cx : x < i - 1
+    · rw [U1 x hx cx]
+      by_cases cy : y < i - 1
+      · rw [U1 y (by omega) cy]; exact h2 (x + 1) (y + 1) (by omega) (by omega) (by omega)
+      · by_cases cy' : y = i - 1
+        · subst cy'; rw [U2]; exact F1 (x + 1) (by omega) (by omega)
+        · rw [U3 y (by omega)]; exact h2 (x + 1) y (by omega) (by omega) hy
+    · rw [U3 y (by omega)]
+      by_cases cx' : x = i - 1
+      · subst cx'; rw [U2]; exact F2 y (by omega) hy
+      · rw [U3 x (by omega)]; exact h2 x y (by omega) hxy hy
+
+/-- second special case of `symMerge` (`b - m == 1`): `data[m]` is inserted into the ordered `data[a:m]` before the
+    first element it is `less` than -/
+theorem insertLast_sorted (hT : TotalPreorder less) (d : Array α) (a m i : Nat) (hai : a ≤ i) (him : i ≤ m)
+    (hm : m < d.size) (h1 : S less d a m)
+    (hl : i = a ∨ less (get d m) (get d (i - 1)) = false) (hr : i = m ∨ less (get d m) (get d i) = true) :
+    Frame d (bubbleDown i m d) a (m + 1) ∧ S less (bubbleDown i m d) a (m + 1) := by
+  obtain ⟨sz, sp⟩ := bubbleDown_spec i m d him hm
+  have F1 : ∀ h, a ≤ h → h < i → less (get d h) (get d m) = true := by
+    intro h h1' h2
+    rcases hl with hl | hl
+    · omega
+    · have := hT.of_false hl
+      by_cases e : h = i - 1
+      · subst e; exact this
+      · exact hT.trans _ _ _ (h1 h (i - 1) h1' (by omega) (by omega)) this
+  have F2 : ∀ h, i ≤ h → h < m → less (get d m) (get d h) = true := by
+    intro h h1' h2
+    rcases hr with hr | hr
+    · omega
+    · by_cases e : h = i
+      · subst e; exact hr
+      · exact hT.trans _ _ _ hr (h1 i h hai (by omega) h2)
+  have U1 : ∀ x, i < x → x ≤ m → get (bubbleDown i m d) x = get d (x - 1) :=
+    fun x h1 h2 => by rw [sp, if_pos ⟨h1, h2⟩]
+  have U2 : get (bubbleDown i m d) i = get d m := by rw [sp, if_neg (by omega), if_pos rfl]
+  have U3 : ∀ x, (x < i ∨ m < x) → get (bubbleDown i m d) x = get d x :=
+    fun x h => by rw [sp, if_neg (by omega), if_neg (by omega)]
+  constructor
+  · refine ⟨sz, fun k hk => U3 k (by omega), fun k h1' h2 => ?_⟩
+    by_cases c1 : i < k
+    · exact ⟨k - 1, by omega, by omega, U1 k c1 (by omega)⟩
+    · by_cases c2 : k = i
+      · subst c2; exact ⟨m, by omega, by omega, U2⟩
+      · exact ⟨k, h1', h2, U3 k (by omega)⟩
+  · intro x y hx hxy hy
+    by_cases cx : x < i
+    · rw [U3 x (Or.inl cx)]
+      by_cases cy : y < i
+      · rw [U3 y (Or.inl cy)]; exact h1 x y hx hxy (by omega)
+      · by_cases cy' : y = i
+        · subst cy'; rw [U2]; exact F1 x hx cx
+        · rw [U1 y (by omega) (by omega)]; exact h1 x (y - 1) hx (by omega) (by omega)
+    · rw [U1 y (by omega) (by omega)]
+      by_cases cx' : x = i
+      · subst cx'; rw [U2]; exact F2 (y - 1) (by omega) (by omega)
+      · rw [U1 x (by omega) (by omega)]; exact h1 (x - 1) (y - 1) (by omega) (by omega) (by omega)
+
+/-- the rotation step of `symMerge` (skipped when one of the two blocks is empty), index by index:
+    `data[start:m]` and `data[m:e]` change places, where `start + (e - m) = mid` -/
+theorem rotIf_spec (d : Array α) (start m e mid : Nat) (hsm : start ≤ m) (hme : m ≤ e) (he : e ≤ d.size)
+    (hmid : start + (e - m) = mid) :
+    (if (decide (start < m) && decide (m < e)) = true then rotate d start m e else d).size = d.size ∧
+    (∀ x, start ≤ x → x < mid →
+      get (if (decide (start < m) && decide (m < e)) = true then rotate d start m e else d) x = get d (x - start + m)) ∧
+    (∀ x, mid ≤ x → x < e →
+      get (if (decide (start < m) && decide (m < e)) = true then rotate d start m e else d) x = get d (x - mid + start)) ∧
+    (∀ x, (x < start ∨ e ≤ x) →
+      get (if (decide (start < m) && decide (m < e)) = true then rotate d start m e else d) x = get d x) := by
+  by_cases hrot : start < m ∧ m < e
+  · rw [if_pos (by simpa using hrot)]
+    obtain ⟨r0, r1, r2, r3⟩ := rotate_spec d start m e hrot.1 hrot.2 he
+    refine ⟨r0, fun x h1 h2 => ?_, fun x h1 h2 => ?_, r3⟩
+    · have := r1 (x - start) (by omega)
+      rw [show start + (x - start) = x by omega] at this
+      rw [this]; congr 1; omega
+    · have := r2 (x - mid) (by omega)
+      rw [show start + (e - m) + (x - mid) = x by omega] at this
+      rw [this]; congr 1; omega
+  · rw [if_neg (by simpa using hrot)]
+    refine ⟨rfl, fun x h1 h2 => ?_, fun x h1 h2 => ?_, fun _ _ => rfl⟩
+    · congr 1; omega
+    · congr 1; omega
+
+/-- after the rotation step: four ordered runs `[a,start) [start,mid) [mid,e) [e,b)`, and everything in the first half
+    `[a,mid)` is `less`-before everything in the second half `[mid,b)` -/
+theorem symMerge_split (hT : TotalPreorder less) (d d1 : Array α) (a m b start e mid : Nat)
+    (h1 : S less d a m) (h2 : S less d m b)
+    (hs1 : a ≤ start) (hsm : start ≤ m) (hme : m ≤ e) (heb : e ≤ b) (hmid : start + (e - m) = mid)
+    (hl : (start = a ∨ e = b) ∨ less (get d e) (get d (start - 1)) = false)
+    (hr : (start = m ∨ e = m) ∨ less (get d (e - 1)) (get d start) = true)
+    (A0 : d1.size = d.size)
+    (A1 : ∀ x, start ≤ x → x < mid → get d1 x = get d (x - start + m))
+    (A2 : ∀ x, mid ≤ x → x < e → get d1 x = get d (x - mid + start))
+    (A3 : ∀ x, (x < start ∨ e ≤ x) → get d1 x = get d x) :
+    Frame d d1 a b ∧ S less d1 a start ∧ S less d1 start mid ∧ S less d1 mid e ∧ S less d1 e b ∧
+    (∀ x y, a ≤ x → x < mid → mid ≤ y → y < b → less (get d1 x) (get d1 y) = true) := by
+  refine ⟨⟨A0, fun k hk => A3 k (by omega), fun k k1 k2 => ?_⟩, ?_, ?_, ?_, ?_, ?_⟩
+  · by_cases c1 : k < start
+    · exact ⟨k, k1, k2, A3 k (Or.inl c1)⟩
+    · by_cases c2 : k < mid
+      · exact ⟨k - start + m, by omega, by omega, A1 k (by omega) c2⟩
+      · by_cases c3 : k < e
+        · exact ⟨k - mid + start, by omega, by omega, A2 k (by omega) c3⟩
+        · exact ⟨k, k1, k2, A3 k (by omega)⟩
+  · intro x y hx hxy hy
+    rw [A3 x (by omega), A3 y (by omega)]
+    exact h1 x y hx hxy (by omega)
+  · intro x y hx hxy hy
+    rw [A1 x hx (by omega), A1 y (by omega) hy]
+    exact h2 _ _ (by omega) (by omega) (by omega)
+  · intro x y hx hxy hy
+    rw [A2 x hx (by omega), A2 y (by omega) hy]
+    exact h1 _ _ (by omega) (by omega) (by omega)
+  · intro x y hx hxy hy
+    rw [A3 x (by omega), A3 y (by omega)]
+    exact h2 x y (by omega) hxy hy
+  · intro x y hx hxm hmy hy
+    by_cases cx : x < start
+    · rw [A3 x (Or.inl cx)]
+      by_cases cy : y < e
+      · rw [A2 y hmy cy]
+        exact h1 _ _ hx (by omega) (by omega)
+      · rw [A3 y (by omega)]
+        rcases hl with hl | hl
+        · omega
+        · have h0 := hT.of_false hl
+          have ha : less (get d x) (get d (start - 1)) = true := by
+            by_cases ex : x = start - 1
+            · subst ex; exact hT.refl _
+            · exact h1 _ _ hx (by omega) (by omega)
+          have hb' : less (get d e) (get d y) = true := by
+            by_cases ey : y = e
+            · subst ey; exact hT.refl _
+            · exact h2 _ _ hme (by omega) hy
+          exact hT.trans _ _ _ (hT.trans _ _ _ ha h0) hb'
+    · rw [A1 x (by omega) hxm]
+      by_cases cy : y < e
+      · rw [A2 y hmy cy]
+        rcases hr with hr | hr
+        · omega
+        · have ha : less (get d (x - start + m)) (get d (e - 1)) = true := by
+            by_cases ex : x - start + m = e - 1
+            · rw [ex]; exact hT.refl _
+            · exact h2 _ _ (by omega) (by omega) (by omega)
+          have hb' : less (get d start) (get d (y - mid + start)) = true := by
+            by_cases ey : y - mid + start = start
+            · rw [ey]; exact hT.refl _
+            · exact h1 _ _ hs1 (by omega) (by omega)
+          exact hT.trans _ _ _ (hT.trans _ _ _ ha hr) hb'
+      · rw [A3 y (by omega)]
+        exact h2 _ _ (by omega) (by omega) hy
+
+/-- the two halves merged separately give the whole range in order -/
+theorem symMerge_join (d1 d2 d3 : Array α) (a mid b : Nat) (hamid : a ≤ mid) (hmidb : mid ≤ b)
+    (f12 : Frame d1 d2 a mid) (f23 : Frame d2 d3 mid b) (s2 : S less d2 a mid) (s3 : S less d3 mid b)
+    (hx : ∀ x y, a ≤ x → x < mid → mid ≤ y → y < b → less (get d1 x) (get d1 y) = true) :
+    Frame d1 d3 a b ∧ S less d3 a b := by
+  refine ⟨(f12.mono (Nat.le_refl _) hmidb).trans (f23.mono hamid (Nat.le_refl _)), ?_⟩
+  intro x y h1 hxy h2
+  by_cases cy : y < mid
+  · rw [f23.out x (by omega), f23.out y (by omega)]
+    exact s2 x y h1 hxy cy
+  · by_cases cx : mid ≤ x
+    · exact s3 x y cx hxy h2
+    · rw [f23.out x (by omega)]
+      obtain ⟨x', e1, e2, e3⟩ := f12.mem x h1 (by omega)
+      obtain ⟨y', g1, g2, g3⟩ := f23.mem y (by omega) h2
+      rw [e3, g3, f12.out y' (by omega)]
+      exact hx x' y' e1 e2 g1 g2
+
+/-- the general case of `symMerge`, given the position `start` the binary search found and the statement for the
+    recursive calls -/
+theorem symMerge_general (hT : TotalPreorder less) (f : Nat)
+    (ih : ∀ (d : Array α) (a m b : Nat), a < m → m < b → b ≤ d.size → b - a ≤ f → S less d a m → S less d m b →
+      Frame d (symMerge less f d a m b) a b ∧ S less (symMerge less f d a m b) a b)
+    (d : Array α) (a m b mid start : Nat) (hb : b ≤ d.size) (hf : b - a ≤ f + 1)
+    (hmid1 : 2 * mid ≤ a + b) (hmid2 : a + b < 2 * mid + 2) (hab : a + 2 ≤ b)
+    (h1 : S less d a m) (h2 : S less d m b)
+    (hs1 : a ≤ start) (hsm : start ≤ m) (hsmid : start ≤ mid) (he : mid + m - start ≤ b)
+    (hl : (start = a ∨ mid + m - start = b) ∨ less (get d (mid + m - start)) (get d (start - 1)) = false)
+    (hr : (start = m ∨ mid + m - start = m) ∨ less (get d (mid + m - start - 1)) (get d start) = true) :
+    let e := mid + m - start
+    let d1 := if (decide (start < m) && decide (m < e)) = true then rotate d start m e else d
+    let d2 := if (decide (a < start) && decide (start < mid)) = true then symMerge less f d1 a start mid else d1
+    let d3 := if (decide (mid < e) && decide (e < b)) = true then symMerge less f d2 mid e b else d2
+    Frame d d3 a b ∧ S less d3 a b := by
+  intro e d1 d2 d3
+  have hme : m ≤ e := by omega
+  have hmid : start + (e - m) = mid := by omega
+  obtain ⟨A0, A1, A2, A3⟩ : d1.size = d.size ∧ (∀ x, start ≤ x → x < mid → get d1 x = get d (x - start + m)) ∧
+      (∀ x, mid ≤ x → x < e → get d1 x = get d (x - mid + start)) ∧ (∀ x, (x < start ∨ e ≤ x) → get d1 x = get d x) :=
+    rotIf_spec d start m e mid hsm hme (by omega) hmid
+  obtain ⟨F01, S1, S2, S3, S4, X⟩ := symMerge_split less hT d d1 a m b start e mid h1 h2 hs1 hsm hme he hmid hl hr A0 A1 A2 A3
+  have P2 : Frame d1 d2 a mid ∧ S less d2 a mid := by
+    by_cases c : a < start ∧ start < mid
+    · have e2 : d2 = symMerge less f d1 a start mid := if_pos (by simpa using c)
+      rw [e2]
+      exact ih d1 a start mid c.1 c.2 (by omega) (by omega) S1 S2
+    · have e2 : d2 = d1 := if_neg (by simpa using c)
+      rw [e2]
+      refine ⟨Frame.refl _ _ _, ?_⟩
+      by_cases c' : a = start
+      · rw [c']; exact S2
+      · have : start = mid := by omega
+        rw [← this]; exact S1
+  obtain ⟨F12, T2⟩ := P2
+  have S3' : S less d2 mid e := S3.congr (fun k k1 _ => F12.out k (by omega))
+  have S4' : S less d2 e b := S4.congr (fun k k1 _ => F12.out k (by omega))
+  have P3 : Frame d2 d3 mid b ∧ S less d3 mid b := by
+    by_cases c : mid < e ∧ e < b
+    · have e3 : d3 = symMerge less f d2 mid e b := if_pos (by simpa using c)
+      rw [e3]
+      exact ih d2 mid e b c.1 c.2 (by have := F12.size; omega) (by omega) S3' S4'
+    · have e3 : d3 = d2 := if_neg (by simpa using c)
+      rw [e3]
+      refine ⟨Frame.refl _ _ _, ?_⟩
+      by_cases c' : e = mid
+      · rw [← c']; exact S4'
+      · have : e = b := by omega
+        rw [← this]; exact S3'
+  obtain ⟨F23, T3⟩ := P3
+  obtain ⟨F13, T⟩ := symMerge_join less d1 d2 d3 a mid b (by omega) (by omega) F12 F23 T2 T3 X
+  exact ⟨F01.trans F13, T⟩
+
+/-- **symMerge**: two adjacent ordered runs `data[a:m]`, `data[m:b]` become one ordered run `data[a:b]`; nothing
+    outside `[a, b)` is touched and nothing crosses its border -/
+theorem symMerge_sorted (hT : TotalPreorder less) (fuel : Nat) (d : Array α) (a m b : Nat) (ham : a < m) (hmb : m < b)
+    (hb : b ≤ d.size) (hf : b - a ≤ fuel) (h1 : S less d a m) (h2 : S less d m b) :
+    Frame d (symMerge less fuel d a m b) a b ∧ S less (symMerge less fuel d a m b) a b := by
+  induction fuel generalizing d a m b with
+  | zero => omega
+  | succ f ih =>
+    unfold symMerge
+    by_cases c1 : m - a = 1
+    · rw [if_pos (by simpa using c1)]
+      have hm : m = a + 1 := by omega
+      subst hm
+      obtain ⟨b1, b2, b3, b4⟩ := bsearch_spec' (fun h => lessAt less d h a) (a + 1) b (by omega)
+      dsimp only at b3 b4 ⊢
+      refine insertFirst_sorted less hT d a b _ b1 b2 hb h2 ?_ ?_
+      · rcases b3 with b3 | b3
+        · exact Or.inl b3
+        · rw [lessAt_eq less d (by omega) (by omega)] at b3; exact Or.inr b3
+      · rcases b4 with b4 | b4
+        · exact Or.inl b4
+        · by_cases hbb : bsearch (fun h => lessAt less d h a) (b - (a + 1)) (a + 1) b = b
+          · exact Or.inl hbb
+          · rw [lessAt_eq less d (by omega) (by omega)] at b4; exact Or.inr b4
+    · rw [if_neg (by simpa using c1)]
+      by_cases c2 : b - m = 1
+      · rw [if_pos (by simpa using c2)]
+        have hbm : b = m + 1 := by omega
+        subst hbm
+        obtain ⟨b1, b2, b3, b4⟩ := bsearch_spec' (fun h => !lessAt less d m h) a m (by omega)
+        dsimp only at b3 b4 ⊢
+        refine insertLast_sorted less hT d a m _ b1 b2 (by omega) h1 ?_ ?_
+        · rcases b3 with b3 | b3
+          · exact Or.inl b3
+          · rw [lessAt_eq less d (by omega) (by omega)] at b3; exact Or.inr (by simpa using b3)
+        · rcases b4 with b4 | b4
+          · exact Or.inl b4
+          · rw [lessAt_eq less d (by omega) (by omega)] at b4; exact Or.inr (by simpa using b4)
+      · rw [if_neg (by simpa using c2)]
+        dsimp only
+        generalize hmid : (a + b) / 2 = mid
+        have hmid1 : 2 * mid ≤ a + b := by omega
+        have hmid2 : a + b < 2 * mid + 2 := by omega
+        -- whichever interval the search runs on
+        have fin : ∀ lo hi, (lo = a ∨ (lo = mid + m - b ∧ b ≤ mid + m)) → (hi = m ∨ hi = mid) → a ≤ lo → lo ≤ hi →
+            hi ≤ m → hi ≤ mid → mid + m - b ≤ lo →
+            ∀ start, start = bsearch (fun c => !lessAt less d (mid + m - 1 - c) c) (hi - lo) lo hi →
+            let e := mid + m - start
+            let d1 := if (decide (start < m) && decide (m < e)) = true then rotate d start m e else d
+            let d2 := if (decide (a < start) && decide (start < mid)) = true then symMerge less f d1 a start mid else d1
+            let d3 := if (decide (mid < e) && decide (e < b)) = true then symMerge less f d2 mid e b else d2
+            Frame d d3 a b ∧ S less d3 a b := by
+          intro lo hi hlo hhi g1 g2 g3 g4 g5 start hst
+          obtain ⟨b1, b2, b3, b4⟩ := bsearch_spec' (fun c => !lessAt less d (mid + m - 1 - c) c) lo hi g2
+          rw [← hst] at b1 b2 b3 b4
+          refine symMerge_general less hT f ih d a m b mid start hb hf hmid1 hmid2 (by omega) h1 h2 (by omega) (by omega)
+            (by omega) (by omega) ?_ ?_
+          · by_cases q : start = a ∨ mid + m - start = b
+            · exact Or.inl q
+            · rcases b3 with b3 | b3
+              · exact Or.inl (by omega)
+              · rw [lessAt_eq less d (by omega) (by omega)] at b3
+                rw [show mid + m - 1 - (start - 1) = mid + m - start by omega] at b3
+                exact Or.inr (by simpa using b3)
+          · by_cases q : start = m ∨ mid + m - start = m
+            · exact Or.inl q
+            · rcases b4 with b4 | b4
+              · exact Or.inl (by omega)
+              · rw [lessAt_eq less d (by omega) (by omega)] at b4
+                rw [show mid + m - 1 - start = mid + m - start - 1 by omega] at b4
+                exact Or.inr (by simpa using b4)
+        by_cases hgt : m > mid
+        · simp only [hgt, ↓reduceIte]
+          exact fin (mid + m - b) mid (Or.inr ⟨rfl, by omega⟩) (Or.inr rfl) (by omega) (by omega) (by omega) (by omega)
+            (by omega) _ rfl
+        · simp only [hgt, ↓reduceIte]
+          exact fin a m (Or.inl rfl) (Or.inl rfl) (by omega) (by omega) (by omega) (by omega) (by omega) _ rfl
+
 end sorted
 
 end Wtf.GoSort
